@@ -175,7 +175,10 @@ fn oracle(c: &Case, acc: &mut Acc) -> CaseResult {
                 let mut buf = prefill(bufsize(msg.len()));
                 let res = r.read_message(&msg, &mut buf);
                 if attack {
-                    ensure!(res.is_err(), "{what}: altered message accepted");
+                    if res.is_ok() {
+                        // acceptance of an altered message is C03's business; nothing was rejected
+                        return Err(Fail::setup(format!("{what}: altered message accepted")));
+                    }
                     if let Some((i, j)) = leaks(&buf, &plain) {
                         fail!("{what}: after the rejected read the caller's buffer holds decrypted plaintext: buffer[{i}..{}] == plaintext[{j}..{}]", i + 8, j + 8);
                     }
@@ -188,13 +191,15 @@ fn oracle(c: &Case, acc: &mut Acc) -> CaseResult {
                     for rep in 0..c.repeat % 3 {
                         let mut buf = prefill(bufsize(msg.len()));
                         let res = r.read_message(&msg, &mut buf);
-                        ensure!(res.is_err(), "{what}: altered message accepted on delivery {}", rep + 2);
+                        if res.is_ok() {
+                            return Err(Fail::setup(format!("{what}: altered message accepted on delivery {}", rep + 2)));
+                        }
                         if let Some((i, j)) = leaks(&buf, &plain) {
                             fail!("{what}: after delivery {} of the rejected message the caller's buffer holds decrypted plaintext: buffer[{i}..{}] == plaintext[{j}..{}]", rep + 2, i + 8, j + 8);
                         }
                     }
                 } else {
-                    let n = res.map_err(|x| Fail::new(format!("{what}: control read failed: {}", e(&x))))?;
+                    let n = res.map_err(|x| Fail::setup(format!("{what}: control read of the genuine message failed (an honest read failing is not this property's business): {}", e(&x))))?;
                     ensure!(buf[..n] == plain[..], "{what}: control payload");
                 }
             }
@@ -236,12 +241,16 @@ fn oracle(c: &Case, acc: &mut Acc) -> CaseResult {
                 for rep in 0..1 + c.repeat % 3 {
                     let mut buf = prefill(bufsize(msg.len()));
                     let res = tr.read_message(&msg, &mut buf);
-                    ensure!(res.is_err(), "{what}: altered message accepted (delivery {})", rep + 1);
+                    if res.is_ok() {
+                        // acceptance of an altered message is C03/C04's business; nothing was rejected, so
+                        // there is nothing to judge here
+                        return Err(Fail::setup(format!("{what}: altered message accepted (delivery {})", rep + 1)));
+                    }
                     if let Some((i, j)) = leaks(&buf, &plain) {
                         fail!("{what}: after rejected delivery {} the caller's buffer holds decrypted plaintext: buffer[{i}..{}] == plaintext[{j}..{}]", rep + 1, i + 8, j + 8);
                     }
                 }
-                let p = t_read(&mut tr, &genuine, plain.len()).map_err(|x| Fail::new(format!("{what}: control read failed: {}", e(&x))))?;
+                let p = t_read(&mut tr, &genuine, plain.len()).map_err(|x| Fail::setup(format!("{what}: control read of the genuine message failed (an honest read failing is not this property's business): {}", e(&x))))?;
                 ensure!(p == plain, "{what}: control payload");
             } else {
                 let mut ti = pair.i.into_stateless_transport_mode().map_err(|x| Fail::setup(e(&x)))?;
@@ -258,12 +267,16 @@ fn oracle(c: &Case, acc: &mut Acc) -> CaseResult {
                 for rep in 0..1 + c.repeat % 3 {
                     let mut buf = prefill(bufsize(msg.len()));
                     let res = tr.read_message(n, &msg, &mut buf);
-                    ensure!(res.is_err(), "{what}: altered message accepted (delivery {})", rep + 1);
+                    if res.is_ok() {
+                        // acceptance of an altered message is C03/C04's business; nothing was rejected, so
+                        // there is nothing to judge here
+                        return Err(Fail::setup(format!("{what}: altered message accepted (delivery {})", rep + 1)));
+                    }
                     if let Some((i, j)) = leaks(&buf, &plain) {
                         fail!("{what}: after rejected delivery {} the caller's buffer holds decrypted plaintext: buffer[{i}..{}] == plaintext[{j}..{}]", rep + 1, i + 8, j + 8);
                     }
                 }
-                let p = sl_read(&tr, n, &genuine, plain.len()).map_err(|x| Fail::new(format!("{what}: control read failed: {}", e(&x))))?;
+                let p = sl_read(&tr, n, &genuine, plain.len()).map_err(|x| Fail::setup(format!("{what}: control read of the genuine message failed (an honest read failing is not this property's business): {}", e(&x))))?;
                 ensure!(p == plain, "{what}: control payload");
             }
         },
